@@ -3,6 +3,7 @@
 package netsim
 
 import (
+	"sync"
 	"time"
 
 	"github.com/lightninglabs/neutrino"
@@ -13,10 +14,36 @@ import (
 // when its cached tip hashes disagree but the stores are level); a busy-wait
 // never lets the bubble reach quiescence, so the harness turns each iteration
 // into a short virtual-time sleep. No client lock is held at that point.
+//
+// Only a loop that comes round again at the same virtual instant is slowed
+// down: the first few iterations per instant run undisturbed.
 func init() {
 	neutrino.VerifYield = func(point string) {
-		if point == "cfhandler:at-tip" {
+		if point != "cfhandler:at-tip" {
+			return
+		}
+		now := time.Now()
+		yieldMu.Lock()
+		if now.Equal(yieldLast) {
+			yieldCount++
+		} else {
+			yieldLast, yieldCount = now, 0
+		}
+		spin := yieldCount >= 3
+		yieldMu.Unlock()
+		if spin {
 			time.Sleep(250 * time.Millisecond)
 		}
 	}
+	resetYield = func() {
+		yieldMu.Lock()
+		yieldLast, yieldCount = time.Time{}, 0
+		yieldMu.Unlock()
+	}
 }
+
+var (
+	yieldMu    sync.Mutex
+	yieldLast  time.Time
+	yieldCount int
+)
